@@ -46,6 +46,18 @@ CHECKS = {
         ref="DESIGN.md section 6 C06",
         note="Fault-free runs here; failures in sibling/child steps are exercised by C09's fault strata with the same C06 predicate enforced.",
         technique="TLA+ contract evaluated by TLC on recorded executions (trace validation) + negative controls"),
+    "C09": dict(
+        category="fault_enumeration",
+        text="Every generated operation is run fault-free (to learn the downstream calls it makes), then once per injected fault - 18 kinds (transport error, HTTP 500, non-JSON body, JSON object instead of array, array too short / too long, GraphQL errors on one / on every entry, missing data, null data, missing node, node of the wrong JSON type, list for object, object for list, scalar inside a list, null leaf, extra key) x a seeded choice of (service, call, position in the batch) - then fault-free again (canary). FederationAbs (Enforce=C09,C01) lets the faulty run respond only with a well-formed 200 answer whose errors is non-empty for failure-signal kinds and whose scalar leaves all occur in what the services returned; the canary must satisfy C01. The gateway runs in a child process, so a panic in one of its goroutines or a hang is observed and attributed to the case. 19k (quick) / 500k (thorough) runs, validated by TLC.",
+        ref="DESIGN.md section 6 C09",
+        note="Single faults per run (pairs are separate runs); fault positions are sampled by seed, not enumerated exhaustively; independence of batch siblings is checked in C08.",
+        technique="TLA+ contract evaluated by TLC on recorded fault runs (trace validation), child-process crash/hang observation"),
+    "C10": dict(
+        category="model_checking",
+        text="(a) Invalid operations derived from valid generated ones by one mutation (11 kinds: unknown field/argument/type, undeclared variable, wrong variable type, selection on a leaf, object without selection, fragment cycle, two operations without operationName, unknown operationName, syntax error; invalidity confirmed by gqlparser on the merged schema) are sent to the real gateway: FederationAbs (Enforce=C10) has no enabled Call/QCall action for them and accepts only a response with errors and data:null; the valid operation is served afterwards. (b) For the fault kinds `errors`/`errorsall` every GraphQL error a service answered with must occur in the client's errors with identical message, extensions and path. 21k (quick) / 300k (thorough) runs validated by TLC.",
+        ref="DESIGN.md section 6 C10",
+        note="Invalidity is decided by gqlparser (trusted). Error payload alphabets are small.",
+        technique="TLA+ contract evaluated by TLC on recorded runs (trace validation) + negative controls"),
 }
 
 PENDING = "not claimed yet: specification and binding for this property are still being built (DESIGN.md section 10 build order)"
